@@ -250,6 +250,55 @@ theorem woken_drain (v : Variant) (s : St) (l : Nat) (hw : l ∈ s.woken) :
   have := List.length_pos_of_mem hw
   omega
 
+/-- **saturated_sawtooth.**  End-to-end reading of the hysteresis, as the service shows it under
+saturating load (every serve loop always has a client waiting; the harness runs the real
+`dnssvc.Service` this way): starting from nothing the limiter admits exactly `stop` connections and
+stops; and in every reachable stopped state one release followed by all the admissions that succeed
+leaves exactly `sawNext stop resume n` connections — `n - 1` while that is above `resume`, `stop`
+again otherwise — with the limiter stopped again.  `sawNext` is stated from the property text, not
+from the counter. -/
+theorem saturated_sawtooth (stop resume : Nat) (h : WF stop resume) (ops : List Op)
+    (hq : (run repaired (init stop resume) ops).c.accepting = false)
+    (hpos : 0 < count (run repaired (init stop resume) ops)) :
+    ((init stop resume).c.refill (stop + 1)).current = stop ∧
+    ((init stop resume).c.refill (stop + 1)).accepting = false ∧
+    ((run repaired (init stop resume) ops).c.decrement.refill (stop + 1)).current =
+      sawNext stop resume (count (run repaired (init stop resume) ops)) ∧
+    ((run repaired (init stop resume) ops).c.decrement.refill (stop + 1)).accepting = false := by
+  have hi := reach_inv h ops
+  generalize run repaired (init stop resume) ops = s at *
+  obtain ⟨h0, hrs, hlt⟩ := h
+  have hc : s.c.current = count s := hi.cnt
+  have hle := hi.le
+  have hst := hi.hstop
+  have hre := hi.hres
+  have hinit := refill_full (stop + 1) (init stop resume).c rfl (by simpa [init] using h0)
+    (by simpa [init] using hlt) (by simp [init])
+  refine ⟨by rw [hinit]; rfl, by rw [hinit], ?_⟩
+  rw [dec_eq s.c (by omega) (by omega)]
+  unfold sawNext
+  rw [← hc]
+  by_cases hlow : s.c.current - 1 ≤ resume
+  · have hr := refill_full (stop + 1)
+      { s.c with current := s.c.current - 1,
+                 accepting := s.c.accepting || decide (s.c.current - 1 ≤ s.c.resume) }
+      (by simp [hre, hlow]) (by simp; omega) (by simpa [hst] using hlt) (by simp; omega)
+    rw [hr]
+    simp [hlow, hst]
+  · have hn : (s.c.accepting || decide (s.c.current - 1 ≤ s.c.resume)) = false := by
+      simp [hq, hre, hlow]
+    rw [refill_not_accepting _ _ hn]
+    simp [hlow, hq, hre]
+
+/-- Non-vacuity: stop 3, resume 1, three connections open (stopped).  One release leaves 2 (still
+stopped), the next leaves 1 = resume and the limiter fills up to 3 again. -/
+example : WF 3 1 ∧
+    (run repaired (init 3 1) [.accept 0, .deliver 0, .accept 0, .deliver 0, .accept 0, .deliver 0]).c.accepting = false ∧
+    sawNext 3 1 3 = 2 ∧ sawNext 3 1 2 = 3 ∧
+    ((run repaired (init 3 1) [.accept 0, .deliver 0, .accept 0, .deliver 0, .accept 0, .deliver 0,
+      .close 0 false]).c.decrement.refill 4).current = 3 := by
+  refine ⟨⟨by decide, by decide, by decide⟩, by decide, by decide, by decide, by decide⟩
+
 /-- **pipeline_bound.**  With pipeline limiting enabled, at most `n` queries of one TCP/TLS connection
 are being processed, for every burst and every order of arrivals, completions and `Acquire`
 time-outs; every running worker holds exactly one token of the connection's semaphore. -/
@@ -337,6 +386,7 @@ theorem closed_accept_leak_blocks_others :
 #print axioms admission_iff_log
 #print axioms reopened_when_low
 #print axioms woken_drain
+#print axioms saturated_sawtooth
 #print axioms pipeline_bound
 #print axioms pipeline_work_conserving
 #print axioms stuck_waiter_counterexample
